@@ -183,7 +183,10 @@ def build(targets=None, jobs=None):
             if rc != 0:
                 raise BuildError('coq_makefile', out[-500:])
         tg = targets or ['Extract.vo']
-        rc, out = _run(['timeout', '3000', 'make', '-j%d' % (jobs or NPROC)] + tg, cwd=COQ, timeout=3100)
+        # a proof script that runs away (after a change to the code) must end as a failed obligation, not take the machine down:
+        # 12 GB of address space per coqc (the largest file needs under 2 GB)
+        rc, out = _run(['bash', '-c', 'ulimit -v 12000000; exec timeout 3000 make -j%d %s' % (jobs or NPROC, ' '.join(tg))],
+                       cwd=COQ, timeout=3100)
         info['coq_s'] = round(time.time() - t0, 1)
         info['coq_log'] = out
         if rc != 0:
